@@ -167,5 +167,5 @@ def main(c):
              "helper and window width 0..5; cells whose width is stated or left to be measured are set and filled at and around "
              "the right edge of windows ending inside, on and beyond the screen's edge and cut by a parent (5x3 screen, quick: "
              "seeded third); strings over {narrow, space, wide, emoji+VS16, +U+FF9E} holding a cluster whose width depends on "
-             "the terminal are enumerated up to length 3 (quick: seeded quarter) / 4 for every helper, width 1..5 and the four "
+             "the terminal are enumerated up to length 3 (quick: seeded quarter; thorough also a seeded half of length 4) for every helper, width 1..5 and the four "
              "width-measuring capability sets; distinct = distinct (tree, call) pairs")
